@@ -335,6 +335,9 @@ var BoundaryValues = []uint64{0, 1, 23, 24, 1 << 16, 1<<31 - 1, 1 << 31, 1<<32 -
 type DatagramFault struct {
 	What string
 	Data []byte
+	// Class, if set, is appended to the signature of a violation this fault causes, so that a
+	// recorded finding about one field does not cover other fields of the same decoder.
+	Class string
 }
 
 // DatagramFaults enumerates, for a well-formed CBOR datagram: truncation at every offset, and
@@ -343,14 +346,14 @@ type DatagramFault struct {
 func DatagramFaults(valid []byte) []DatagramFault {
 	var out []DatagramFault
 	for k := 0; k < len(valid); k++ {
-		out = append(out, DatagramFault{fmt.Sprintf("cut after %d of %d bytes", k, len(valid)), append([]byte(nil), valid[:k]...)})
+		out = append(out, DatagramFault{What: fmt.Sprintf("cut after %d of %d bytes", k, len(valid)), Data: append([]byte(nil), valid[:k]...)})
 	}
 	for _, h := range CborHeaders(valid) {
 		for _, v := range BoundaryValues {
 			head := CborHead(h.Major, v)
 			mut := append(append(append([]byte(nil), valid[:h.Pos]...), head...), valid[h.Pos+h.Len:]...)
-			out = append(out, DatagramFault{fmt.Sprintf("header(major %d, value %d) at offset %d set to %d", h.Major, h.Value, h.Pos, v), mut})
-			out = append(out, DatagramFault{fmt.Sprintf("header(major %d, value %d) at offset %d set to %d, datagram ends there", h.Major, h.Value, h.Pos, v), mut[:h.Pos+len(head)]})
+			out = append(out, DatagramFault{What: fmt.Sprintf("header(major %d, value %d) at offset %d set to %d", h.Major, h.Value, h.Pos, v), Data: mut})
+			out = append(out, DatagramFault{What: fmt.Sprintf("header(major %d, value %d) at offset %d set to %d, datagram ends there", h.Major, h.Value, h.Pos, v), Data: mut[:h.Pos+len(head)]})
 		}
 	}
 	return out
